@@ -91,6 +91,8 @@ type storeSpec struct {
 	// RealPush: the store is also pushed through Exporter.PushMetrics to real
 	// collectd / graphite / statsd listeners on the loopback
 	RealPush bool `json:"real_push,omitempty"`
+	// PromFirst: a Prometheus collection of the same exporter precedes the judged exports
+	PromFirst bool `json:"prom_first,omitempty"`
 }
 
 // pollCtx is a request context that reports cancellation from its k-th poll on.
@@ -329,6 +331,12 @@ func export(st *metrics.Store, sp storeSpec) outputs {
 	e, err := exporter.New(context.Background(), st, opts...)
 	if err != nil {
 		panic(err)
+	}
+	if sp.PromFirst {
+		// the store is scraped in the Prometheus format first, as a real mtail is all
+		// the time: what that collection does to shared label maps must not show in
+		// the other formats
+		_ = e.Write(io.Discard)
 	}
 	if sp.Disturb > 0 {
 		disturb(e, sp.Disturb)
@@ -816,7 +824,7 @@ func pick(r *vlib.Rand, pct bool, pool []string) string {
 func genStore(r *vlib.Rand, nonfinite, seps bool) storeSpec {
 	q := vlib.Q
 	pct := r.Chance(55)
-	sp := storeSpec{Kind: "store", Host: q(pick(r, pct, hostPool)), Omit: r.Chance(30), Interval: int64(vlib.Pick(r, []int{0, 1, 60, 300})), Disturb: vlib.Pick(r, []int{0, 0, 1, 1, 2, 3, 4, 5}), RealPush: r.Chance(20),
+	sp := storeSpec{Kind: "store", Host: q(pick(r, pct, hostPool)), Omit: r.Chance(30), Interval: int64(vlib.Pick(r, []int{0, 1, 60, 300})), Disturb: vlib.Pick(r, []int{0, 0, 1, 1, 2, 3, 4, 5}), RealPush: r.Chance(20), PromFirst: r.Chance(50),
 		GPrefix: q(pick(r, pct, prefixPool)), SPrefix: q(pick(r, pct, prefixPool)), CPrefix: q(pick(r, pct, prefixPool))}
 	nm := 1 + r.Intn(5)
 	used := map[string]bool{}
